@@ -332,7 +332,7 @@ def _enum_job(job):
         bad_x = []
         for x in INSTANCE_POOL:
             n0 = len(res.failures)
-            judge(res, d, s, copy.deepcopy(x), ("none", "draft"))
+            judge(res, d, s, copy.deepcopy(x), ("none", "draft", "default") if "format" in s else ("none", "draft"))
             if len(res.failures) > n0:
                 bad_x.append(x)
         res.nontrivial = True
